@@ -44,29 +44,30 @@ fn get_int(m: &PathAwareValue, k: char) -> Option<i64> {
     }
 }
 
-//@ k22_merge_disjoint props=C17 tier=probe expect=pass fns=PathAwareValue::merge :: merge of {a: x} with {b: y} (x, y any i64): Ok, the result has exactly the two keys with their values (no loss), in both argument orders
-proof!(k22_merge_disjoint, 8, {
-    let x: i64 = kani::any();
-    let y: i64 = kani::any();
-    let r1 = one_entry_map('a', x).merge(one_entry_map('b', y));
-    match &r1 {
-        Ok(m) => {
-            assert!(get_int(m, 'a') == Some(x) && get_int(m, 'b') == Some(y));
-            assert!(matches!(m, PathAwareValue::Map((_, mv)) if mv.values.len() == 2 && mv.keys.len() == 2));
-        }
-        Err(_) => assert!(false),
-    }
-    let r2 = one_entry_map('b', y).merge(one_entry_map('a', x));
-    match &r2 {
-        Ok(m) => assert!(get_int(m, 'a') == Some(x) && get_int(m, 'b') == Some(y)),
-        Err(_) => assert!(false),
-    }
-    kani::cover!(r1.is_ok());
-    forget(r1);
-    forget(r2);
-});
+macro_rules! k22_disjoint {
+    ($name:ident, $k1:literal, $k2:literal) => {
+        proof!($name, 8, {
+            let x: i64 = kani::any();
+            let y: i64 = kani::any();
+            let r1 = one_entry_map($k1, x).merge(one_entry_map($k2, y));
+            match &r1 {
+                Ok(m) => {
+                    assert!(get_int(m, $k1) == Some(x) && get_int(m, $k2) == Some(y));
+                    assert!(matches!(m, PathAwareValue::Map((_, mv)) if mv.values.len() == 2 && mv.keys.len() == 2));
+                }
+                Err(_) => assert!(false),
+            }
+            kani::cover!(r1.is_ok());
+            forget(r1);
+        });
+    };
+}
+//@ k22_merge_disjoint_ab props=C17 tier=quick expect=pass fns=PathAwareValue::merge :: merge of {a: x} with {b: y} (x, y any i64): Ok, the result has exactly the two keys with their values (no loss, no override)
+k22_disjoint!(k22_merge_disjoint_ab, 'a', 'b');
+//@ k22_merge_disjoint_ba props=C17 tier=quick expect=pass fns=PathAwareValue::merge :: merge of {b: y} with {a: x}: same content as the other order (order of parameter files does not matter for the merged content)
+k22_disjoint!(k22_merge_disjoint_ba, 'b', 'a');
 
-//@ k22_merge_conflict props=C17 tier=probe expect=pass fns=PathAwareValue::merge :: merge of {a: x} with {a: y}: an error (MultipleValues), never a silent choice - also when x == y
+//@ k22_merge_conflict props=C17 tier=quick expect=pass fns=PathAwareValue::merge :: merge of {a: x} with {a: y}: an error (MultipleValues), never a silent choice - also when x == y
 proof!(k22_merge_conflict, 8, {
     let x: i64 = kani::any();
     let y: i64 = kani::any();
@@ -76,7 +77,7 @@ proof!(k22_merge_conflict, 8, {
     forget(r);
 });
 
-//@ k22_merge_kinds props=C17,C08 tier=probe expect=pass fns=PathAwareValue::merge :: merge of a map with a scalar / scalar with map: IncompatibleError, never a panic
+//@ k22_merge_kinds props=C17,C08:t tier=quick expect=pass fns=PathAwareValue::merge :: merge of a map with a scalar / scalar with map: IncompatibleError, never a panic
 proof!(k22_merge_kinds, 8, {
     let r = one_entry_map('a', kani::any()).merge(PathAwareValue::Int((p(), kani::any())));
     assert!(matches!(&r, Err(Error::IncompatibleError(_))));
@@ -85,4 +86,12 @@ proof!(k22_merge_kinds, 8, {
     kani::cover!(r.is_err());
     forget(r);
     forget(r2);
+});
+
+//@ k22_twin props=C17 tier=quick expect=fail fns=PathAwareValue::merge :: vacuity twin of the merge family
+proof!(k22_twin, 8, {
+    let r = one_entry_map('a', kani::any()).merge(one_entry_map('a', kani::any()));
+    assert!(r.is_err());
+    forget(r);
+    assert!(false, "twin-reached");
 });
